@@ -8,6 +8,8 @@ ENV = dict(os.environ, GOFLAGS="-mod=mod", GOPROXY="off", GOSUMDB="off", GOTOOLC
 WTS = [w for w in os.environ.get("OWN_WTS", "").split(":") if w]
 BIN = os.environ.get("OWN_BIN", "/verif/bin/biocheck")
 CLAIMED = [json.loads(l)["id"] for l in open("/verif/properties.jsonl") if json.loads(l)["id"] != "C10"]
+if os.environ.get("OWN_PROPS"):  # restrict the benign run to some checks (a change confined to their rules)
+    CLAIMED = [p for p in CLAIMED if p in os.environ["OWN_PROPS"].split(",")]
 def sh(cmd):
     p = subprocess.run(cmd, shell=True, env=ENV, capture_output=True, text=True, timeout=1800)
     return p.returncode, p.stdout + p.stderr
